@@ -56,7 +56,7 @@ Proof.
     destruct (c_strtol 0 a) as [l e1]. destruct ((l <? 0) || (e1 =? ERANGE));
       (split; [reflexivity|exists e1; reflexivity]).
   - destruct arg as [a|]; [|split; [reflexivity|apply eqv_set]].
-    destruct (strtod a) as [x er]. destruct er; split; try reflexivity; [exists ERANGE|exists 0]; reflexivity.
+    destruct (strtod a) as [x er]. destruct (dbl_error x er); split; try reflexivity; exists (if er then ERANGE else 0); reflexivity.
   - split; [reflexivity|exists e; reflexivity].
   - destruct arg as [a|]; [|split; [reflexivity|apply eqv_set]].
     destruct (load_ini_blind o a w e) as [H1 H2].
